@@ -536,6 +536,9 @@ func (s *Store) CreateAccessAndRefreshTokens(ctx context.Context, request op.Tok
 		if !ok {
 			return "", "", time.Time{}, errors.New("invalid refresh token")
 		}
+		if s.extKeepRefresh() { // ext_c07.go: false unless SetKeepRefreshTokens(true) was called
+			return s.extKeepSame(old, request)
+		}
 		delete(s.Refresh, current)
 		delete(s.Tokens, old.AccessToken)
 	}
@@ -700,6 +703,7 @@ func (s *Store) setUserinfo(ui *oidc.UserInfo, userID string, scopes []string) {
 		}
 	}
 	s.extUserinfo(ui, u, scopes) // ext_c06.go: no-op unless EnableRichClaims was called
+	s.extUserinfoCustom(ui, userID, scopes) // ext_c06.go: no-op unless EnableCustomUserinfoClaims was called
 }
 
 func (s *Store) SetUserinfoFromScopes(ctx context.Context, ui *oidc.UserInfo, userID, clientID string, scopes []string) error {
@@ -963,6 +967,9 @@ func (d Dev) GetDeviceAuthorizatonState(ctx context.Context, clientID, deviceCod
 	e, ok := d.S.Devices[deviceCode]
 	if !ok || e.State.ClientID != clientID {
 		return nil, errors.New("device code not found for client")
+	}
+	if d.S.extLiveDevice() { // ext_c16.go: false unless SetLiveDeviceState(true) was called
+		return e.State, nil
 	}
 	cp := *e.State // the framework gets a copy: it must not be able to mutate stored state
 	cp.Scopes = append([]string(nil), e.State.Scopes...)
